@@ -4,7 +4,7 @@ entities, secrets are version numbers.  It predicts, for a script, the outcome c
 (OK / ERR / SOME / NONE / NOIDX / DEAD).  The checks use it as the implementation-side oracle: a deviation
 of the real crate from this prediction is a violation of the property whose history profile was run.
 """
-import itertools
+import itertools, copy
 
 
 class Ent:
@@ -80,6 +80,8 @@ class Spec:
         self.mpks = []            # (published {combo: (hyb, vid)}, dims snapshot)
         self.usks = []            # {combo: [(hyb, vid)...]}
         self.encs = []            # (hyb, [vid...])
+        self.known = set()        # user ids the master key has recorded (index of the key)
+        self.snaps = []           # backups of the master key: (dims, next_eid, msk, known)
         self.update(); self.push_mpk()
 
     # ---------------------------------------------------------------- structure
@@ -209,10 +211,12 @@ class Spec:
         if op == 'KG':
             rs = self.usk_rights(self.dims, arg(f[1]))
             if rs is None or any(r not in self.msk for r in rs): return 'ERR'
+            self.known.add(len(self.usks))
             self.usks.append({r: [(self.msk[r][0][1], self.msk[r][0][2])] for r in rs}); return 'OK'
         if op == 'RF':
             if not self.usks: return 'NOIDX'
             k = int(f[1]) % len(self.usks); keep = f[2] == '1'; u = self.usks[k]; new = {}
+            if k not in self.known: return 'ERR'      # the (restored) master key does not know this identifier
             for r, uch in u.items():
                 if r not in self.msk: continue
                 mch = [(h, v) for _, h, v in self.msk[r]]
@@ -253,6 +257,11 @@ class Spec:
             if not rs: return 'ERR'
             tg = [pub[r] for r in rs]
             self.encs.append((all(h for h, _ in tg), [v for _, v in tg])); return 'OK'
+        if op == 'SNAP':
+            self.snaps.append(copy.deepcopy((self.dims, self.next_eid, self.msk, self.known))); return 'OK'
+        if op == 'REST':
+            if not self.snaps: return 'NOIDX'
+            self.dims, self.next_eid, self.msk, self.known = copy.deepcopy(self.snaps[int(f[1]) % len(self.snaps)]); return 'OK'
         if op == 'RT':
             if f[1] == 'MSK': return 'OK'
             n = {'MPK': len(self.mpks), 'USK': len(self.usks), 'ENC': len(self.encs)}[f[1]]
